@@ -273,9 +273,23 @@ def run(ctx, chk):
                "an exception handler around validation code that does not raise would swallow "
                "rejections", ev.loc)
     S, consts = schemata(lf)
+    # the access-value table the guards test membership in is the documented one: the two names
+    # and the two levels USER, ROOT (level 0 = no access is not a grantable level)
+    from .c01 import access_levels
+    lv = access_levels(ctx)
+    avv = consts.get("VALID_ACCESS_VALUES")
+    want_av = {"user", "root", lv["USER"], lv["ROOT"]}
+    try:
+        got_av = set(avv) if avv is not None else None
+    except TypeError:
+        got_av = None
+    chk.ob("C18.access-table", "VALID_ACCESS_VALUES = {'user', 'root', USER, ROOT}",
+           got_av == want_av and len(list(avv)) == len(want_av), f"{avv}", path)
     n = 0
     from sa.report import opaque_reason
-    opaque_guards = [g for g in lf.guards if opaque_reason(f_show(g.F))]
+    # (an `except` marker is a modelled handler path here, not an unknown value)
+    opaque_guards = [g for g in lf.guards
+                     if opaque_reason(f_show(g.F).replace("except(", "handler("))]
     for sid, title, loops, conjs, allowed in S:
         for c in conjs:
             alts = c[1] if c[0] == "alt" else (c,)
